@@ -40,7 +40,7 @@ func written(e *Event) int {
 const modelRecOverhead = 76 + 45 // id, prevAlh, len, alh + value reference
 
 // derive walks the trace of the first incarnation of a workload.
-func derive(evs []Event, n int, nv int) *schedule {
+func derive(evs []Event, n int, nv int, grouped bool) *schedule {
 	sc := &schedule{}
 	inflight := 0
 	inSync := false
@@ -66,9 +66,16 @@ func derive(evs []Event, n int, nv int) *schedule {
 		return ""
 	}
 	skip := map[int]bool{}
+	merged := map[int]bool{} // value appends already covered by the OVal of their transaction
+	valSince := false        // a value append belonging to the NEXT precommit has been seen
+	cycleAht := false        // the hash tree fsynced inside the current sync()
 	for i := 0; i < n; i++ {
 		e := &evs[i]
 		if skip[i] {
+			continue
+		}
+		if e.Kind == "mark" && e.Note == "commit-failed" {
+			valSince = false // values appended by a commit that was refused: orphan extent
 			continue
 		}
 		if e.Kind == "ack" {
@@ -77,24 +84,56 @@ func derive(evs []Event, n int, nv int) *schedule {
 		}
 		f := fid(e.Log)
 		if f == "" {
-			continue // hash tree and index logs: not part of the schedule
+			// hash tree and index logs are not part of the schedule; noted: the tree fsynced by sync()
+			// itself, between the tx-log Sync and the commit-log append
+			if txSynced && e.Log == "aht/commit" && e.Kind == "sync" {
+				cycleAht = true
+			}
+			continue
 		}
 		vi, isv := isVal(e.Log)
 		switch e.Kind {
 		case "append":
 			switch {
+			case isv && merged[i]:
+				// part of the extent already appended by the OVal of this transaction
 			case isv:
-				emit(fmt.Sprintf("(OVal %d (zeros %d))", vi, e.Len), fmt.Sprintf("(OOff %d)", e.Off), i)
+				total := e.Len
+				if grouped {
+					// sequential committers: all values of one transaction are appended back to back to
+					// one value log (appendValuesInto under the vLog lock): ONE extent in the model
+					for j := i + 1; j < n; j++ {
+						ej := &evs[j]
+						if ej.Log == e.Log {
+							if ej.Kind != "append" {
+								break
+							}
+							total += ej.Len
+							merged[j] = true
+							continue
+						}
+						if _, v := isVal(ej.Log); v || ej.Log == "tx" || ej.Log == "commit" || ej.Kind == "mark" {
+							break
+						}
+					}
+				}
+				emit(fmt.Sprintf("(OVal %d (zeros %d))", vi, total), fmt.Sprintf("(OOff %d)", e.Off), i)
 				inflight++
+				valSince = true
 			case e.Log == "tx":
 				if e.Len < modelRecOverhead {
 					sc.reason = "tx record shorter than the model's fixed part"
 					return sc
 				}
-				if inflight == 0 {
+				if inflight == 0 || (grouped && !valSince) {
 					emit("(OVal 0 (zeros 0))", "ONone", i-1) // a transaction without (non-empty) values: nothing is appended
 					inflight++
 				}
+				pick := 0 // concurrent committers: which extent belongs to which record is not observable
+				if grouped {
+					pick = inflight - 1 // sequential committers: the extent appended last
+				}
+				valSince = false
 				// did the hash tree fsync during this precommit? (its events follow, same critical section)
 				ahtSync := false
 				end := i
@@ -114,7 +153,7 @@ func derive(evs []Event, n int, nv int) *schedule {
 						ahtSync = true
 					}
 				}
-				emit(fmt.Sprintf("(OPre 0 (zeros %d))", e.Len-modelRecOverhead),
+				emit(fmt.Sprintf("(OPre %d (zeros %d))", pick, e.Len-modelRecOverhead),
 					fmt.Sprintf("(OTx %d %d %v)", e.Off, e.Len, ahtSync), end)
 				inflight--
 				sc.nTx++
@@ -155,8 +194,9 @@ func derive(evs []Event, n int, nv int) *schedule {
 					return sc
 				}
 				pendingCommit = total / 44
-				emit("OSyncTx", fmt.Sprintf("(OCnt %d)", pendingCommit), end)
+				emit("OSyncTx", fmt.Sprintf("(OCnt %d %v)", pendingCommit, cycleAht), end)
 				txSynced = false
+				cycleAht = false
 				if wr > 0 {
 					emit(fmt.Sprintf("(OFlush FCm %d)", wr), "ONone", end)
 					sc.nFlush++
@@ -180,7 +220,7 @@ func derive(evs []Event, n int, nv int) *schedule {
 					inSync = true
 					vSynced = 0
 				}
-				emit("OSyncV", "ONone", i)
+				emit(fmt.Sprintf("(OSyncV %d)", vi), "ONone", i)
 				vSynced++
 			case e.Log == "tx":
 				if !inSync { // no value logs would be nv = 0, which the store does not allow here
